@@ -153,6 +153,7 @@ pub fn gen_append(rng: &mut Rng, cfg: &Cfg, mix: &Mix) -> AppendSpec {
             payload_len: if oversized { cfg.segment_size } else { gen_payload_len(rng, cfg.segment_size / nev.max(1), mix.big_bias) },
             kind: rng.below(3) as u8,
             bad_ts: rng.below(100) < mix.bad_ts && (nev == 1 || i >= 1),
+            meta_kind: None,
         });
     }
     let seq = match rng.below(20) {
@@ -708,8 +709,21 @@ pub fn plan_c19(_tier: Tier, seed: u64) -> Value {
     if kind == 2 && rng.chance(2, 3) {
         cfg.compression = true; // incompressible payload + compression: stored > estimated
     }
+    // one plan in six: records above the compression threshold that do not compress although their
+    // payloads are below it (random metadata carries the bytes)
+    let meta_heavy = !many && rng.chance(1, 6);
+    let nev = if meta_heavy { 1 + rng.usize_below(2) } else { nev };
+    if meta_heavy {
+        cfg.compression = true;
+    }
     let mut events = Vec::new();
     for i in 0..nev {
+        if meta_heavy {
+            let payload_len = rng.usize_below(128);
+            let meta_len = 80 + rng.usize_below(400);
+            events.push(EvSpec { stream: i % 4, exp: ExpSpec::Any, name_len: 1 + rng.usize_below(4), meta_len, payload_len, kind: 2, bad_ts: false, meta_kind: Some(2) });
+            continue;
+        }
         let payload_len = if many {
             // above the compression threshold, small enough for the whole transaction to fit
             130 + rng.usize_below(((cfg.segment_size - 4096) / nev).saturating_sub(400).clamp(1, 1500))
@@ -723,7 +737,7 @@ pub fn plan_c19(_tier: Tier, seed: u64) -> Value {
         } };
         // (a long transaction is made of records that do not compress at all: no metadata, short names)
         let (name_len, meta_len) = if many { (1 + rng.usize_below(3), 0) } else { (1 + rng.usize_below(30), rng.usize_below(64)) };
-        events.push(EvSpec { stream: i % 4, exp: ExpSpec::Any, name_len, meta_len, payload_len, kind, bad_ts: false });
+        events.push(EvSpec { stream: i % 4, exp: ExpSpec::Any, name_len, meta_len, payload_len, kind, bad_ts: false, meta_kind: None });
     }
     let target = AppendSpec { pk: 0, events, seq: ExpSpec::Any, seed: rng.next_u64() >> 12, io_fail_at: None, io_fail_mid: false };
     let gap_mode = *rng.pick(&[0u8, 1, 1, 1, 2]);
@@ -806,7 +820,7 @@ pub fn run_c19(plan: &Value) -> RunOutcome {
         filler_no += 1;
         let spec = AppendSpec {
             pk: 0,
-            events: vec![EvSpec { stream: 50 + filler_no % 3, exp: ExpSpec::Any, name_len: 1, meta_len: 0, payload_len, kind: 2, bad_ts: false }],
+            events: vec![EvSpec { stream: 50 + filler_no % 3, exp: ExpSpec::Any, name_len: 1, meta_len: 0, payload_len, kind: 2, bad_ts: false, meta_kind: None }],
             seq: ExpSpec::Any,
             seed: rng.next_u64() >> 12,
             io_fail_at: None,
@@ -837,6 +851,10 @@ pub fn run_c19(plan: &Value) -> RunOutcome {
     let zone = if free < lo { "free<min" } else if free < hi { "min<=free<max" } else { "free>=max" };
     h.probe(&format!("fill_level:{zone}:{}", if stored > estimated { "stored>estimated" } else { "stored<=estimated" }));
     h.fault(&format!("fill_level_steered:{zone}"));
+    if plan.cfg.compression && plan.target.events.iter().all(|e| e.kind == 2 && e.payload_len < 128) {
+        // records above the compression threshold whose payloads are below it
+        h.probe(&format!("small_incompressible_payloads:{zone}:{}", if stored > estimated { "stored>estimated" } else { "stored<=estimated" }));
+    }
     h.sched.push_str(zone);
     h.sched.push_u64(filler_no as u64);
     // 3. the target itself, with up to 5 identical attempts
